@@ -22,6 +22,10 @@ for pid in sys.argv[2:]:
             sh("python3 tools/seeded.py run %s %s" % (name, pid))
     if os.path.exists(out + "/benign.diff"):
         name = "B-%s" % pid
+        k = 2
+        while os.path.exists("%s/seeded/%s" % (V, name)):
+            name = "B%d-%s" % (k, pid)
+            k += 1
         sh("python3 tools/seeded.py benign %s %s | tail -4" % (out, name))
         if os.path.exists("%s/seeded/%s" % (V, name)):
             files = json.load(open("%s/seeded/%s/meta.json" % (V, name))).get("files_touched") or []
